@@ -7,7 +7,11 @@ package types
 // C14: two configurations compare equal only if every launch-relevant setting is equal, so that a changed
 // process is never mistaken for an unchanged one. (Struct-valued settings ShutDownParams and RestartPolicy
 // are compared through reflect.DeepEqual on copies; they are outside what this contract can name.)
+// comparedCfg(n): a configuration with replica name n has been compared field by field against its predecessor
+//@ ghost comparedCfg(string) bool
 //@ func (p *ProcessConfig) Compare
+//@   sets comparedCfg(another.ReplicaName) := true
+//@   ensures monotone("comparedCfg")
 //@   ensures nil: (p == nil || another == nil) ==> (result <==> p == another)
 //@   ensures scalars: p != nil && another != nil && result ==>
 //@        p.Name == another.Name && p.Disabled == another.Disabled && p.IsDaemon == another.IsDaemon && p.Command == another.Command &&
